@@ -56,6 +56,10 @@ type qMsg struct {
 	AuthPassword  string            `json:"auth_password,omitempty"`
 	Plans         []qPlan           `json:"plans,omitempty"`
 	Abort         bool              `json:"abort,omitempty"` // the client aborts after Body instead of committing
+	// the message reaches the queue through one of two sibling routes of an enclosing pipeline: each route adds a
+	// field of its own to its copy of the header (as a modifier in a reroute block does); the other route does so
+	// after this queue has been given its copy
+	SiblingRoute bool `json:"sibling_route_adds_field,omitempty"`
 	// the message is submitted this many virtual minutes after the previous one (0 = immediately)
 	AcceptAfterMin int `json:"accept_after_min,omitempty"`
 }
@@ -528,10 +532,18 @@ func qRun(sc qScenario, observe func(dir string, h *qHistory)) *qHistory {
 				os.WriteFile(p, []byte(m.Body), 0o600)
 				body = buffer.FileBuffer{Path: p, LenHint: len(m.Body)}
 			}
-			if err := d.Body(ctx, hdr, body); err != nil {
+			given := hdr
+			if m.SiblingRoute {
+				given.Add("X-Verif-Route", "this-one")
+			}
+			if err := d.Body(ctx, given, body); err != nil {
 				h.ev(qEvent{Msg: m.ID, Op: "accept-error", Err: "body: " + err.Error()})
 				d.Abort(ctx)
 				continue
+			}
+			if m.SiblingRoute {
+				other := hdr // textproto.Header is passed by value: the copies share their storage
+				other.Add("X-Verif-Route", "the-other-one")
 			}
 			if m.BodyInFile {
 				// the endpoint removes its buffer once the transaction ended
